@@ -314,6 +314,8 @@ def apply_tok(obj, t: int, nested_only: bool = False):
             src = ('numeric.ch0.vmd0', 'string.ch0.vmd0', 'rtsa.ch0.vmd0')[t % 3]
             del obj.Source[:]
             obj.Source.append(src)
+            if t % 2:
+                obj.Source.append(src)      # the same source named twice (pm:Source has no uniqueness constraint)
         elif name == 'AlertSignalDescriptorContainer':
             obj.ConditionSignaled = ('ac0.vmd0.mds0', 'ac1.vmd0.mds0')[t % 2]   # indexed (descriptions.condition_signaled)
     else:
@@ -353,6 +355,10 @@ TX_FACTORY = {'metric': 'metric_state_transaction', 'comp': 'component_state_tra
 
 class AppError(Exception):
     """Raised by the 'application' inside a transaction body (Abort action)."""
+
+
+class HookErrorLost(Exception):
+    """The exception of the application's pre-commit handler was swallowed by the library."""
 
 
 def load_mdib(path=FIXTURE_ONE):
@@ -435,6 +441,20 @@ class MdibReplayer:
     def _do_Abort(self, rec):
         cm, self.cm, self.mgr = self.cm, None, None
         ex = AppError('application error inside transaction body')
+        if rec.get('how') == 'hook':
+            # the application's pre-commit handler raises: the body has ended normally, the commit is under way
+            def hook(_mdib, _transaction):
+                raise AppError('application error inside the pre-commit handler')
+            saved = self.mdib.pre_commit_handler
+            self.mdib.pre_commit_handler = hook
+            try:
+                cm.__exit__(None, None, None)
+            except AppError:
+                return
+            finally:
+                self.mdib.pre_commit_handler = saved
+            # the error did not reach the caller: whatever happened instead is judged as the outcome of an abort
+            raise HookErrorLost('the error of the pre-commit handler did not reach the caller of the transaction')
         try:
             raise ex
         except AppError:
